@@ -213,9 +213,19 @@ class _JobMixin(_NodeMixin):
                 raise exc
             ctx.log('exit', nid, 'cancelled')
             raise
+        if outcome == 'self_cancel':
+            # ends with CancelledError on its own (e.g. it awaited a helper
+            # future that somebody else cancelled): its task ends cancelled
+            # although nobody cancelled the task
+            ctx.log('exit', nid, 'scancel')
+            raise asyncio.CancelledError()
         if outcome == 'exc':
-            exc = SimAbort(nid) if spec.get('exc_base') else \
-                SimError(nid, noargs=bool(spec.get('exc_noargs')))
+            if spec.get('exc_type') == 'timeout':
+                exc = TimeoutError("job gave up in " + nid)     # a builtin
+                exc.nid = nid
+            else:
+                exc = SimAbort(nid) if spec.get('exc_base') else \
+                    SimError(nid, noargs=bool(spec.get('exc_noargs')))
             ctx.objs.setdefault(nid, {})['exc'] = exc
             ctx.log('exit', nid, 'exc')
             raise exc
@@ -246,7 +256,7 @@ class SimJob(_JobMixin, AbstractJob):
 
     def __init__(self, ctx, spec, **kwds):
         self._sim_init(ctx, spec)
-        AbstractJob.__init__(self, label=self.nid, **kwds)
+        AbstractJob.__init__(self, label=spec.get('label', self.nid), **kwds)
 
     async def co_run(self):
         return await self._body()
@@ -263,7 +273,7 @@ class SimCoroJob(_JobMixin, Job):
     def __init__(self, ctx, spec, **kwds):
         self._sim_init(ctx, spec)
         Job.__init__(self, self._body(), coshutdown=self._handler(),
-                     label=self.nid, **kwds)
+                     label=spec.get('label', self.nid), **kwds)
 
 
 class _SchedMixin(_NodeMixin):
@@ -303,7 +313,8 @@ class SimScheduler(_SchedMixin, Scheduler):
 
     def __init__(self, *members, ctx, spec, **kwds):
         self._sim_init(ctx, spec)
-        Scheduler.__init__(self, *members, label=self.nid, **kwds)
+        Scheduler.__init__(self, *members, label=spec.get('label', self.nid),
+                           **kwds)
 
     async def co_run(self):
         return await self._logged_run(Scheduler.co_run(self))
